@@ -149,9 +149,17 @@ def check_derivative(op, pts, site, first, stats):
     single = any(S.dtype_of(s) in (np.dtype('float32'), np.dtype('complex64'))
                  for s in (dom, ran))
     dirs = _dirs(dom)
+    xobj = None
     for p in pts:
         try:
-            x = S.from_flat(dom, p)
+            # history: after the first base point the SAME element object is modified in place and
+            # handed to derivative() again (a derivative must not remember the old contents of x)
+            if xobj is not None and not S.is_field(dom):
+                xobj.assign(S.from_flat(dom, p))
+                x = xobj
+            else:
+                x = S.from_flat(dom, p)
+                xobj = x
             fx = op(x)
             fxr = _rc(ran, fx)
         except NotImplementedError:
